@@ -13,7 +13,7 @@ from scoda.sequences.sequence import Sequence  # noqa: E402
 
 
 def execute(rel):
-    line = {"in": rel, "out": [], "out2": [], "raised": ""}
+    line = {"in": rel, "out": [], "out2": [], "outAbs": [], "raised": ""}
     try:
         if len(rel) % 3 == 2:
             # equal letters share ONE Message object (what concatenating a motif with itself produces)
@@ -37,8 +37,11 @@ def execute(rel):
         else:
             s = Sequence(relative_sequence=RelativeSequence(msgs))
         line["in"] = [P.msg(m) for m in s.rel._messages]
+        if len(rel) % 4 == 3:
+            s.refresh()          # the absolute view is live as well when normalise is called
         s.normalise()
         line["out"] = P.raw_rel(s)
+        line["outAbs"] = P.raw_abs(s)
         s.normalise()
         line["out2"] = P.raw_rel(s)
     except core.MachineryError:
